@@ -8,10 +8,34 @@ LEVEL_NOTE = ("Trusted: Lean 4.33.0 kernel and the axioms propext, Classical.cho
               "Lean specs are validated against libsodium on the same inputs. ")
 
 CLAIMED = {
+ "C01": dict(
+    text="Lean theorems over a buffer-level model of every secretbox/box/sealed-box entry point (classic + object API), parametric in XSalsa20/X25519/HSalsa20/Poly1305: open∘seal = id for every pairing, all API forms produce one wire format, model = NaCl spec. The model is tied to the code by a per-run differential run impl vs model vs Lean spec vs libsodium vs an independent python NaCl reference over every message length and every API form/container.",
+    design="§7 C01", technique="Lean 4 proof (round-trip, form agreement, model = NaCl spec) + differential correspondence impl/model/spec/libsodium",
+    note="XSalsa20, X25519, HSalsa20 are parameters of the theorems (dependency crates; differential evidence only)."),
+ "C02": dict(
+    text="Lean theorems: complete accept/reject decision procedure of every opening form (ok ⇔ length ≥ overhead ∧ recomputed MAC = presented tag), unconditional rejection of every tag change and of every short input; plus an exhaustive single-fault enumeration (every bit of tag/body/nonce/key/epk/AD, every truncation, extensions) evaluated on the implementation, the Lean model (real MAC) and libsodium.",
+    design="§7 C02", technique="Lean 4 proof of the decision procedure + exhaustive single-fault differential enumeration",
+    note="That distinct MAC inputs give distinct Poly1305 tags is cryptographic, not a theorem; it is checked concretely per enumerated fault."),
+ "C03": dict(
+    text="Lean theorems over the secretstream state machine (any state incl. counter 0xffffffff, parametric in ChaCha20/HChaCha20/Poly1305): pull∘push returns message, tag and the same next state through all rekey branches; a rejected pull leaves state/buffer/tag untouched; little-endian counter increment. Tied to the code by random histories (push/rekey/in-order/replay/skip/swap/wrong-AD/bit-flip/foreign) compared three-way impl/model/libsodium incl. raw states via hook H1.",
+    design="§7 C03", technique="Lean 4 proof (state-machine invariants, induction over histories) + differential history correspondence impl/model/libsodium",
+    note="ChaCha20/HChaCha20 are parameters; rejection of out-of-position ciphertexts rests on MAC collision-freeness (evaluated concretely)."),
+ "C04": dict(
+    text="Lean theorems: the models of the attacker-facing functions (every panicking Rust operation modelled as an explicit panic outcome) never reach panic for any byte string; tied to the code by a sweep of every length 0..=2·overhead+64 × content classes under catch_unwind in a dev-profile build with a counting allocator.",
+    design="§7 C04", technique="Lean 4 proof of never-panics on the Outcome-model + differential totality sweep",
+    note="panics inside dependency crates are outside the model; only the sweep sees them."),
  "C07": dict(
-    text="Lean theorems: the limb-level model of poly1305_soft.rs equals the RFC 8439 specification for every key and message (incl. all carry corners) and never overflows a checked u64/u128 operation; little-endian increment equals +1 mod 256^n; the BLAKE2b/SipHash/HSalsa20/HChaCha20/HMAC models equal their specs. The models are tied to the code by a per-run differential run (impl vs model vs Lean spec vs libsodium) over every length 0..=L and constructed carry corners.",
-    design="§7 C07", technique="Lean 4 proof of model = spec (limb arithmetic, buffering) + differential correspondence impl/model/spec/libsodium",
+    text="Lean theorems: the limb-level model of poly1305_soft.rs equals the RFC 8439 specification for every key and message (incl. all carry corners) and never overflows a checked u64/u128 operation; little-endian increment equals +1 mod 256^n. The models are tied to the code by a per-run differential run (impl vs model vs Lean spec vs libsodium) over every length 0..=L, every BLAKE2b digest/key length, and constructed Poly1305 carry corners.",
+    design="§7 C07", technique="Lean 4 proof of model = spec (limb arithmetic, carries, overflow freedom) + differential correspondence impl/model/spec/libsodium",
     note="dependency crates (sha2) are modelled by the Lean spec, not verified."),
+ "C08": dict(
+    text="Lean theorem: for the Poly1305 buffering model, any list of update chunks (empty, straddling, exactly filling) gives the one-shot result of the concatenation, and equals the RFC value. Tied to the code and extended to the other incremental interfaces by exhaustive 2-way/3-way split enumeration and random k-way partitions, impl incremental vs libsodium one-shot vs Lean spec.",
+    design="§7 C08", technique="Lean 4 proof (induction over the chunk list with a buffering invariant) + exhaustive split enumeration",
+    note="sha2's buffering (SHA-512/HMAC/incremental signing) is not modelled; differential only."),
+ "C17": dict(
+    text="Lean theorem over the buffer-level models: whenever an opening function (box/secretbox/sealed/afternm, detached and in-place, stream pull) returns err, the caller's message buffer and tag variable equal their initial values — for every input, not only single corruptions. Tied to the code by the exhaustive single-fault family with sentinel-filled buffers.",
+    design="§7 C17", technique="Lean 4 proof (failed open leaves outputs untouched) + exhaustive single-fault differential enumeration with sentinel buffers",
+    note=""),
 }
 
 PENDING = {}
